@@ -89,7 +89,9 @@ def execute(spec, ctx):
         ties_before2 = ctx.counters.get("tie_breaks_with_more_than_one_candidate", 0)
         run2 = replcheck.run_replace(ctx, structure, search2, replace2, spec2, spec["scripts"][0])
         ties = ties + (ctx.counters.get("tie_breaks_with_more_than_one_candidate", 0) - ties_before2)
-        if run2.exc is not None:
+        if run2.exc is not None and c04._is_overlap_error(run2.exc):
+            ctx.count("overlap_error_left_to_C07")       # with a symmetric pattern the chosen ordering decides which atoms are shared
+        elif run2.exc is not None:
             raise Violation("raises:%s" % type(run2.exc).__name__, "after moving both patterns jointly: %s" % run2.exc, site="replace_pattern_in_structure")
         if run2.found is not None and len(run2.selected) == run2.reported and not replcheck.overlapping([run2.found[0][i] for i in run2.selected]):
             acc2 = replcheck.account(ctx, spec2, structure, run2, prefix="c05")
